@@ -351,20 +351,33 @@ def gen_model(rng: core.Rng, idx: int) -> Dict[str, Any]:
         base[n] = rng.choice(cands) if cands and rng.chance(0.45) else None
         depth[n] = 0 if base[n] is None else depth[base[n]] + 1
     own: Dict[str, List[Tuple[str, str, str]]] = {}
+    required: List[str] = []
+    falsy: Dict[str, Any] = {}
+
+    def mro_of(x):
+        return (mro_of(base[x]) if base[x] else []) + [x]
     for i, n in enumerate(names):
         fl = [(f"a{i}", "scalar", "int")]
         for j in range(rng.randint(0, 2)):
             fl.append((f"s{i}_{j}", "scalar", rng.choice(["int", "float", "str", "bool", "Optional[float]", "Optional[int]", "List[str]"])))
-        def mro_of(x):
-            return (mro_of(base[x]) if base[x] else []) + [x]
-        outside = [m for m in names if m not in mro_of(n) and n not in (mro_of(m) if m in base else [m])]
+        outside = [m for m in names if m not in mro_of(n) and n not in mro_of(m)]
         for j in range(rng.randint(0, 2)):
             fl.append((f"r{i}_{j}", "one", rng.choice(outside) if outside and rng.chance(0.75) else rng.choice(names)))
+            if rng.chance(0.4):
+                required.append(f"r{i}_{j}")          # annotated T (not Optional[T]), default None -- as the dataset's Backreference.reference
         for j in range(rng.randint(0, 2)):
             tg = [m for m in names if m != n]
             fl.append((f"l{i}_{j}", "many", rng.choice(tg)))
         own[n] = fl
-    return {"idx": idx, "names": names, "base": base, "own": own}
+        # object truthiness: container-like classes (__len__ over a collection / JSON list) and classes with __bool__ over a scalar
+        if rng.chance(0.6):
+            lens = [f for f, k, t in fl if k == "many" or t == "List[str]"]
+            bools = [f for f, k, t in fl if k == "scalar" and t in ("int", "bool", "float")]
+            if lens and rng.chance(0.6):
+                falsy[n] = ["len", rng.choice(lens)]
+            else:
+                falsy[n] = ["bool", rng.choice(bools)]
+    return {"idx": idx, "names": names, "base": base, "own": own, "required": required, "falsy": falsy}
 
 
 def model_source(md) -> str:
@@ -378,9 +391,12 @@ def model_source(md) -> str:
             if kind == "scalar":
                 out.append(f"    {f}: {t} = {dflt[t]}")
             elif kind == "one":
-                out.append(f"    {f}: Optional[{t}] = None")
+                out.append(f"    {f}: {t} = None" if f in md.get("required", []) else f"    {f}: Optional[{t}] = None")
             else:
                 out.append(f"    {f}: List[{t}] = field(default_factory=list)")
+        if n in md.get("falsy", {}):
+            how, f = md["falsy"][n]
+            out += ["", f"    def __len__(self):", f"        return len(self.{f})"] if how == "len" else ["", f"    def __bool__(self):", f"        return bool(self.{f})"]
         out += ["", ""]
     return "\n".join(out)
 
@@ -425,33 +441,111 @@ def install_model(md, workdir) -> None:
         c04.REFS[n] = [(k, info[n][k][0], info[n][k][1], True) for k in keys if k in info[n]]
     c04.CLASS_ID = {n: i + 1 for i, n in enumerate(names)}
     c04.ROOT_KINDS = list(names)
+    # truthiness is inherited: a class is falsy-capable through the nearest definition on its MRO
+    c04.FALSY_FIELDS = {}
+    for n in names:
+        for c in reversed(mro(n)):
+            if c in md.get("falsy", {}):
+                c04.FALSY_FIELDS[n] = tuple(md["falsy"][c])
+                break
+
+
+def prepare_case04(d: dict, org: str, model_ok: bool) -> Dict[str, Any]:
+    """C04 on a generated model: real to_dao -> from_dao, no database."""
+    ft = c04.features(d)
+    res = c04.run_impl(d)
+    res.pop("_objs", None)
+    heap, r, anom = c04.input_heap(d)
+    m = {"descr": d, "origin": org, "ft": ft, "res": res, "anomalies": anom, "heap": heap, "root": r, "expr": None,
+         "in_f": not ft["alt_objs"] and not ft["altbase_objs"], "alts": c04.alts_term(), "root_class": d["objs"][d["root"]]["c"]}
+    if "exc" not in res:
+        args = f"{c04.heap_term(heap)} {r}%nat {c04.heap_term(res['heap'])} {res['root']}%nat"
+        m["expr"] = f"case_code {c04.alts_term()} {args}" if model_ok else f"case_code_spec {args}"
+    return m
+
+
+def spawn_worker(prop: str, seed: int, idx: int, ncases: int, model_ok: bool, outf, replay_file=None):
+    import subprocess
+    if outf.exists():
+        outf.unlink()
+    cmd = [core.PY, "-m", "harness.c05", "--worker", prop, str(seed), str(idx), str(ncases), "1" if model_ok else "0", str(outf)]
+    if replay_file:
+        cmd.append(str(replay_file))
+    return subprocess.Popen(cmd, cwd=str(core.VERIF), env=core.IMPL_ENV, stdout=subprocess.DEVNULL, stderr=subprocess.PIPE, text=True)
+
+
+def collect_worker(rep: Report, j, outf, pr):
+    """-> parsed worker output or None (obligation recorded)"""
+    import subprocess
+    try:
+        _, err = pr.communicate(timeout=900)
+    except subprocess.TimeoutExpired:
+        pr.kill()
+        err = "timeout"
+    if not outf.exists():
+        rep.oblige(f"genmodel:{j}", False, f"worker produced no output: {(err or '')[-300:]}")
+        return None
+    return json.loads(outf.read_text())
 
 
 def _worker_main(argv) -> int:
-    """python -m harness.c05 --worker <seed> <idx> <ncases> <model_ok> <outfile>: one generated model, its graphs, one JSON line per case."""
-    seed, idx, ncases, model_ok, outfile = int(argv[0]), int(argv[1]), int(argv[2]), argv[3] == "1", argv[4]
-    d = core.WORK / PROP / "genmodels"
+    """python -m harness.c05 --worker <C04|C05> <seed> <idx> <ncases> <model_ok> <outfile> [<replay file>]:
+    one generated class model (or the model stored in a replay), its graphs (or the replay's case), one record per case."""
+    prop, seed, idx, ncases, model_ok, outfile = argv[0], int(argv[1]), int(argv[2]), int(argv[3]), argv[4] == "1", argv[5]
+    replay = json.load(open(argv[6])) if len(argv) > 6 else None
+    d = core.WORK / prop / "genmodels"
     d.mkdir(parents=True, exist_ok=True)
     rng = core.Rng(seed).fork(1000 + idx)
-    md = gen_model(rng.fork(0), idx)
+    md = replay["model"] if replay else gen_model(rng.fork(0), idx)
     out = {"model": md, "cases": []}
     try:
         install_model(md, d)
         sc = read_schema()
         out["schema"] = {"tables": len(sc["tables"]), "assoc": len(sc["assoc"]), "selfref": len(sc["selfref"]),
-                         "depth": max(len(_chain_ids(c, sc["parent"])) for c in sc["tables"])}
+                         "depth": max(len(_chain_ids(c, sc["parent"])) for c in sc["tables"]), "falsy_classes": len(c04.FALSY_FIELDS)}
     except Exception as e:  # noqa
         out["setup_error"] = f"{type(e).__name__}: {str(e)[:300]}"
         open(outfile, "w").write(json.dumps(out, default=str))
         return 0
-    for i in range(ncases):
-        dsc = gen_graph(rng.fork(i + 1), 10)
-        m = prepare_case(dsc, f"model{idx}:gen:{i}", sc, model_ok)
-        if m["res"].get("py_iso") is not None and m["ft"]["selfref_shared"] and "_back" in m["res"]:
-            m["admissible"] = matches_admissible(dsc, m["res"]["_back"])
-        m["res"].pop("_back", None)
-        m["source"] = model_source(md)
+
+    def one(dsc, org):
+        if prop == "C04":
+            m = prepare_case04(dsc, org, model_ok)
+        else:
+            m = prepare_case(dsc, org, sc, model_ok)
+            if m["res"].get("py_iso") is not None and m["ft"]["selfref_shared"] and "_back" in m["res"]:
+                m["admissible"] = matches_admissible(dsc, m["res"]["_back"])
+            m["res"].pop("_back", None)
+        m["ft"].update(c04.falsy_features(dsc))
+        return m
+
+    def failing(m):
+        res = m["res"]
+        if "exc" in res:
+            return True
+        if res.get("py_iso") is None:
+            return False
+        return prop == "C04" or not (m["ft"]["selfref_shared"] or m["ft"]["repeated_elems"])
+
+    shrunk = 0
+    todo = [(replay["case"], "replay")] if replay else [(None, f"model{idx}:gen:{i}") for i in range(ncases)]
+    for i, (dsc, org) in enumerate(todo):
+        if dsc is None:
+            dsc = c04.gen_graph(rng.fork(i + 1), 10) if prop == "C04" else gen_graph(rng.fork(i + 1), 10)
+        m = one(dsc, org)
+        if failing(m) and shrunk < 3 and not replay:
+            shrunk += 1
+            exc0 = "exc" in m["res"]
+
+            def fails(x, exc0=exc0):
+                mm = one(x, org)
+                return ("exc" in mm["res"]) if exc0 else failing(mm) and "exc" not in mm["res"]
+            small = c04.shrink(dsc, fails, budget=60 if prop == "C05" else 150)
+            if small != dsc:
+                m = one(small, org + " (shrunk)")
+        m["generated"] = True
         out["cases"].append(m)
+    out["source"] = model_source(md)
     open(outfile, "w").write(json.dumps(out, default=str))
     return 0
 
@@ -610,11 +704,10 @@ def run(tier: str, seed: int, replay=None) -> int:
     descrs: List[dict] = []
     origin: List[str] = []
     nmodels, per_model = 0, 0
-    if replay is not None:
-        if "model_source" in replay:
-            rep.note("this replay belongs to a generated class model; its source is in the replay file (model_source); "
-                     "re-run it with: python -m harness.c05 --worker <seed> <model idx> <n> 1 <out>")
-            return rep.finish()
+    replay_model = replay is not None and "model" in replay
+    if replay_model:
+        pass      # a case over a generated class model: re-run by a worker that re-installs the stored model
+    elif replay is not None:
         descrs, origin = [replay["case"]], ["replay"]
     else:
         cdir = core.VERIF / "corpus" / PROP
@@ -634,13 +727,13 @@ def run(tier: str, seed: int, replay=None) -> int:
     procs = []
     gdir = core.WORK / PROP / "genmodels"
     gdir.mkdir(parents=True, exist_ok=True)
-    import subprocess
+    if replay_model:
+        rf = gdir / "replay_in.json"
+        rf.write_text(json.dumps(replay))
+        procs.append(("replay", gdir / "out_replay.json", spawn_worker(PROP, seed, int(replay["model"]["idx"]), 1, model_ok, gdir / "out_replay.json", rf)))
     for j in range(nmodels):
         outf = gdir / f"out_{j}.json"
-        if outf.exists():
-            outf.unlink()
-        procs.append((j, outf, subprocess.Popen([core.PY, "-m", "harness.c05", "--worker", str(seed), str(j), str(per_model), "1" if model_ok else "0", str(outf)],
-                                                cwd=str(core.VERIF), env=core.IMPL_ENV, stdout=subprocess.DEVNULL, stderr=subprocess.PIPE, text=True)))
+        procs.append((j, outf, spawn_worker(PROP, seed, j, per_model, model_ok, outf)))
 
     dist = new_dist()
     metas: List[Dict[str, Any]] = []
@@ -655,15 +748,9 @@ def run(tier: str, seed: int, replay=None) -> int:
     gdist = new_dist()
     gen_info = {"models": 0, "setup_errors": [], "schemas": []}
     for j, outf, pr in procs:
-        try:
-            _, err = pr.communicate(timeout=900)
-        except subprocess.TimeoutExpired:
-            pr.kill()
-            err = "timeout"
-        if not outf.exists():
-            rep.oblige(f"genmodel:{j}", False, f"worker produced no output: {(err or '')[-300:]}")
+        o = collect_worker(rep, j, outf, pr)
+        if o is None:
             continue
-        o = json.loads(outf.read_text())
         if "setup_error" in o:
             # a model inside the documented grammar that ORMatic cannot turn into a working layer is C06's concern; recorded, not judged here
             gen_info["setup_errors"].append({"model": j, "error": o["setup_error"]})
@@ -672,6 +759,9 @@ def run(tier: str, seed: int, replay=None) -> int:
         gen_info["schemas"].append(o["schema"])
         for m in o["cases"]:
             m["generated"] = True
+            m["model"], m["source"] = o["model"], o.get("source")
+            for k in ("falsy_objs", "falsy_behind_single_ref", "falsy_in_collection"):
+                gdist[k + ">0"] = gdist.get(k + ">0", 0) + (1 if m["ft"].get(k) else 0)
             rep.count(m["origin"] + json.dumps(m["descr"], sort_keys=True), m["ft"]["n"] >= 2)
             tally(gdist, m)
             metas.append(m)
@@ -725,6 +815,7 @@ def run(tier: str, seed: int, replay=None) -> int:
                               "Session.get in a new Session, from_dao; compared with the input by canonical form and by python bisimulation"}
         if m.get("generated"):
             rec["model_source"] = m.get("source")
+            rec["model"] = m.get("model")     # ./check C05 --replay <this file> re-installs the model in a worker and re-runs the case
             rec["python"] = ("# generated class model: save model_source as a module, generate its layer with ORMatic(ClassDiagram(classes)), "
                              "then build the graph in 'case' (objs[i].c = class, s = scalar kwargs, r = reference fields by object index), "
                              "to_dao -> add/commit -> new Session.get -> from_dao")
